@@ -217,10 +217,21 @@ def cdot_apps(exprs, seen=None):
     seen = set() if seen is None else seen
 
     def visit(x):
-        if z3.is_app(x) and x.decl().kind() == z3.Z3_OP_UNINTERPRETED and x.decl().name() == 'cdot_R' and x.num_args() == 5:
+        if z3.is_app(x) and x.decl().kind() == z3.Z3_OP_UNINTERPRETED and \
+                ((x.decl().name() == 'cdot_R' and x.num_args() == 5) or (x.decl().name() == 'cdoto_R' and x.num_args() == 6)):
             out[x.get_id()] = x
     for e in exprs:
         _walk(e, seen, visit)
+    return out
+
+
+def cdoto_axioms(app, frame=True):
+    """unfolding from the top and the frame instance for the row argument of cdoto(a, M, c, off, lo, hi) = sum a[j]*M[off+j][c]"""
+    f = app.decl()
+    a, m, c, off, lo, hi = [app.arg(k) for k in range(6)]
+    out = [z3.Implies(hi <= lo, app == 0),
+           z3.Implies(hi > lo, app == f(a, m, c, off, lo, hi - 1)
+                      + z3.Select(a, hi - 1) * z3.Select(z3.Select(m, off + hi - 1), c))]
     return out
 
 
@@ -283,8 +294,10 @@ def sum_axioms(app, frame=True):
     return out
 
 
-def instantiate(qf, univ, goal, rounds=2, extra_terms=(), budget=60000, sum_frame=True):
-    """returns the list of ground z3 hypotheses (qf + instances)"""
+def instantiate(qf, univ, goal, rounds=2, extra_terms=(), budget=60000, sum_frame=True, seed=None):
+    """returns the list of ground z3 hypotheses (qf + instances).
+    seed='goal': the candidate terms of the first round come from the goal and the most recent quantifier-free hypotheses
+    only (goal-directed: a small subset of the instances, so `unsat` of the result is still a proof)"""
     ground = list(qf)
     done = set()
     bound = set()
@@ -303,6 +316,8 @@ def instantiate(qf, univ, goal, rounds=2, extra_terms=(), budget=60000, sum_fram
     chain_pats = {}
     usage_acc = {'sel': {}, 'apps': {}, 'seen': set(), 'appseen': set(), 'symcache': {}}
     new_exprs = ground + [goal] + list(extra_terms)
+    if seed == 'goal':
+        new_exprs = list(qf[-FOCUS_TAIL:]) + [goal] + list(extra_terms)
     for rnd in range(rounds + 1):
         t_new = index_terms(new_exprs, bound, seen_terms)
         s_new = sum_apps(new_exprs, seen_sum)
@@ -320,7 +335,7 @@ def instantiate(qf, univ, goal, rounds=2, extra_terms=(), budget=60000, sum_fram
         fresh_exprs = []
         while pending_dot:
             app_ = pending_dot.pop()
-            ax_ = (cdot_axioms if app_.decl().name() == 'cdot_R' else dot_axioms)(app_, sum_frame)
+            ax_ = {'cdot_R': cdot_axioms, 'cdoto_R': cdoto_axioms}.get(app_.decl().name(), dot_axioms)(app_, sum_frame)
             fresh_exprs += ax_
             if sum_frame:
                 # the frame instances (everything after the two unfolding equations) name the application over the array
@@ -381,7 +396,8 @@ def instantiate(qf, univ, goal, rounds=2, extra_terms=(), budget=60000, sum_fram
                 n = 1
                 for c in per_var:
                     n *= max(1, len(c))
-                if n > MAX_INST_PER_HYP:
+                if n > MAX_INST_PER_HYP or (seed == 'goal' and len(vars_) >= 2 and n > 64):
+                    # (goal-directed mode: no large cartesian products; the ground chains below bind the variables together)
                     combos = [tuple([t] * len(vars_)) for t in per_var[0]] if len(set(map(len, per_var))) == 1 else []
                 else:
                     combos = list(itertools.product(*per_var))
@@ -681,27 +697,47 @@ def discharge(ob, timeout_ms=10000, rounds=2, sum_frame=True, small=()):
         except NotImplementedError as e:
             return dict(status='undecided', why=str(e), ms=0, backend='-')
         goal = to_z3(g)
+        r = None
+        if univ and len(qf) > FOCUS_TAIL:
+            # goal-directed first attempt: instances whose terms come from the goal and the latest facts only
+            try:
+                ground_s = instantiate(qf, univ, goal, rounds=rounds, sum_frame=sum_frame, seed='goal', budget=6000)
+                r = _check_abs(ground_s + [z3.Not(goal)], timeout_ms)
+                if r is not None:
+                    r['backend'] += '(goal-directed instances)'
+                    r['nhyps'] = len(ground_s)
+                    results.append(r)
+                    continue
+            except (NotImplementedError, z3.Z3Exception):
+                r = None
         ground = instantiate(qf, univ, goal, rounds=rounds, sum_frame=sum_frame)
         assertions = ground + [z3.Not(goal)]
         r = _check_abs(assertions, timeout_ms)
         if r is None and len(ob.hyps) > FOCUS_TAIL:
-            # focused attempt: the goal from the most recent hypotheses alone (the preceding hints / the statement just
-            # executed).  A subset of the hypotheses, so `unsat` is still a proof; it keeps the nonlinear solver away
-            # from the unrelated products of a long path, which is what makes such queries unstable.
-            try:
-                qf2, univ2 = [], []
-                for h in list(ob.hyps)[-FOCUS_TAIL:] + list(extra):
-                    flatten_hyp(h, qf2, univ2)
-                ground2 = instantiate(qf2, univ2, goal, rounds=rounds, sum_frame=sum_frame)
-                s2 = z3.Solver()
-                s2.set('timeout', min(timeout_ms, 8000))
-                for a in ground2:
-                    s2.add(a)
-                s2.add(z3.Not(goal))
-                if s2.check() == z3.unsat:
-                    r = dict(status='proved', backend='z3-api(last %d hypotheses)' % FOCUS_TAIL)
-            except (NotImplementedError, z3.Z3Exception):
-                pass
+            # focused attempts: the goal from the most recent hypotheses alone (the preceding hints / the statement just
+            # executed), then the same plus the function's preconditions and definitional axioms.  Subsets of the
+            # hypotheses, so `unsat` is still a proof; they keep the nonlinear solver away from the unrelated products of
+            # a long path, which is what makes such queries unstable.
+            hs = list(ob.hyps)
+            npre = min(getattr(ob, 'npre', 0) or 0, max(0, len(hs) - FOCUS_TAIL))
+            for label, subset in (('last %d hypotheses' % FOCUS_TAIL, hs[-FOCUS_TAIL:]),
+                                  ('preconditions + last %d hypotheses' % FOCUS_TAIL, hs[:npre] + hs[-FOCUS_TAIL:])):
+                if r is not None or (label.startswith('pre') and npre == 0):
+                    continue
+                try:
+                    qf2, univ2 = [], []
+                    for h in subset + list(extra):
+                        flatten_hyp(h, qf2, univ2)
+                    ground2 = instantiate(qf2, univ2, goal, rounds=rounds, sum_frame=sum_frame)
+                    s2 = z3.Solver()
+                    s2.set('timeout', min(timeout_ms, 8000))
+                    for a in ground2:
+                        s2.add(a)
+                    s2.add(z3.Not(goal))
+                    if s2.check() == z3.unsat:
+                        r = dict(status='proved', backend='z3-api(%s)' % label)
+                except (NotImplementedError, z3.Z3Exception):
+                    pass
         if r is None:
             r = _check(assertions, timeout_ms, skip_abs=True)
         r['nhyps'] = len(ground)
@@ -735,17 +771,46 @@ def _is_num(c):
 
 
 def _addends(t):
-    """t as a list of (numeral coefficient or None, term) addends, one level deep"""
-    if z3.is_app(t):
-        kd = t.decl().kind()
-        if kd == z3.Z3_OP_ADD:
-            return [(None, c) for c in t.children()]
-        if kd == z3.Z3_OP_SUB and t.num_args() >= 2:
-            ch = t.children()
-            return [(None, ch[0])] + [(-1, c) for c in ch[1:]]
-        if kd == z3.Z3_OP_UMINUS:
-            return [(-1, t.arg(0))]
-    return [(None, t)]
+    """t as a list of (numeral coefficient as Fraction, term) addends: sums, differences, negations and numeral multiples
+    are flattened, and to_real is pushed inside a linear integer term (to_real is additive), so that the same polynomial
+    abstracts alike whether it is written  to_real(p - k + 1) * x  or  (to_real(p) - to_real(k) + 1) * x"""
+    from fractions import Fraction
+    out = []
+
+    def val(c):
+        return Fraction(c.as_long()) if z3.is_int_value(c) else Fraction(c.numerator_as_long(), c.denominator_as_long())
+
+    def linear(x):
+        return z3.is_app(x) and (x.decl().kind() in (z3.Z3_OP_ADD, z3.Z3_OP_SUB, z3.Z3_OP_UMINUS)
+                                 or (x.decl().kind() == z3.Z3_OP_MUL and x.num_args() == 2 and _is_num(x.arg(0))))
+
+    def go(x, coef, real, depth):
+        if z3.is_app(x) and depth < 6:
+            kd = x.decl().kind()
+            if kd == z3.Z3_OP_ADD:
+                for c in x.children():
+                    go(c, coef, real, depth + 1)
+                return
+            if kd == z3.Z3_OP_SUB and x.num_args() >= 2:
+                ch = x.children()
+                go(ch[0], coef, real, depth + 1)
+                for c in ch[1:]:
+                    go(c, -coef, real, depth + 1)
+                return
+            if kd == z3.Z3_OP_UMINUS:
+                go(x.arg(0), -coef, real, depth + 1)
+                return
+            if kd == z3.Z3_OP_MUL and x.num_args() == 2 and _is_num(x.arg(0)):
+                go(x.arg(1), coef * val(x.arg(0)), real, depth + 1)
+                return
+            if kd == z3.Z3_OP_TO_REAL and linear(x.arg(0)):
+                go(x.arg(0), coef, True, depth + 1)
+                return
+        if real and x.sort() == I:
+            x = z3.RealVal(x.as_long()) if z3.is_int_value(x) else z3.ToReal(x)
+        out.append((coef, x))
+    go(t, Fraction(1), False, 0)
+    return out
 
 
 def _atoms_of_product(t, f):
@@ -780,16 +845,14 @@ def abstract_nl(e, cache):
             for p_ in parts:
                 n *= len(p_)
             if n > 48:
-                parts = [[(None, c)] for c in rest]
+                parts = [[(1, c)] for c in rest]
             monos = []
             for combo in itertools.product(*parts):
                 sign = 1
                 atoms = []
                 for co, t in combo:
-                    if co is not None:
-                        sign *= co
+                    sign = sign * co
                     if _is_num(t):
-                        nums_t = t
                         atoms.append(t)
                     else:
                         atoms += _atoms_of_product(t, f)
@@ -810,6 +873,8 @@ def abstract_nl(e, cache):
                     acc = c * acc
                 if sign == -1:
                     acc = -acc
+                elif sign != 1:
+                    acc = (z3.RealVal(str(sign)) if e.sort() == R else z3.IntVal(int(sign))) * acc
                 monos.append(acc)
             acc = monos[0] if len(monos) == 1 else z3.Sum(monos)
             for c in nums:
